@@ -142,7 +142,13 @@ fn print_macro(b: &Block, idx: usize) -> String {
         head = match dv {
             DefaultValues::None => format!("default({}), ", sp(s)),
             DefaultValues::Inline(f) => format!("default({}, {{ {} }}), ", sp(s), f.iter().map(|(p, v)| format!("{}: {}", PROP_NAMES[*p], crate::c15::field_text(*p, *v))).collect::<Vec<_>>().join(", ")),
-            DefaultValues::Expr(_) => format!("default({}, DV_{idx}), ", sp(s)),
+            // an expression "is used as is", however it is spelled: a constant, a struct literal with a
+            // functional-update base, a function call (a `{ ... }` block would read as inline fields)
+            DefaultValues::Expr(v) => match v.d % 3 {
+                1 => format!("default({}, Q {{ a: {}, ..DV_{idx} }}), ", sp(s), f32_lit(v.a)),
+                2 => format!("default({}, dv_{idx}()), ", sp(s)),
+                _ => format!("default({}, DV_{idx}), ", sp(s)),
+            },
         };
     }
     for arm in &b.arms {
@@ -266,7 +272,7 @@ fn program(cases: &[C16Case]) -> (String, Vec<(u32, u32)>) {
     let mut line = src.lines().count() as u32 + 1;
     for (i, c) in cases.iter().enumerate() {
         if let Some((_, DefaultValues::Expr(v))) = &c.block.default {
-            src += &format!("const DV_{i}: Q = {};\n", vals_expr(v));
+            src += &format!("const DV_{i}: Q = {}; fn dv_{i}() -> Q {{ DV_{i} }}\n", vals_expr(v));
             line += 1;
         }
         src += &format!("fn m_{i}() -> Anim {{ {} }}\n", print_macro(&c.block, i));
